@@ -179,6 +179,43 @@ def _tree_gc_order(v, events):
     return False
 
 
+def _undo_restore_peer_purged(v, events):
+    """KF-UNDO-RESTORE-PEER-PURGED: the history undoes/redoes a text or tree edit and the
+    failure is an order-only difference: the replica and the reference at the same log prefix
+    hold the same multiset of characters in their whole content."""
+    if v["tag"] not in ("RefEquivN", "ConvergedN", "RefEquiv", "Converged", "BuildEquiv"):
+        return False
+    if any(e.get("err") and "injected storage fault" not in e["err"] for e in events
+           if e["ev"] in ("Sync", "Attach", "Detach", "Ref", "Build", "Undo", "Redo")):
+        return False
+    kinds = {(e.get("op") or {}).get("k") for e in events if e["ev"] == "Edit"}
+    if not any(e["ev"] in ("Undo", "Redo") for e in events) or not (kinds & {"txt.edit", "tree.edit"}):
+        return False
+    ev = v.get("event") or {}
+    refs = {e["s"]: e["content"] for e in events if e["ev"] == "Ref"}
+
+    def order_only(mine, theirs):
+        return mine is not None and theirs is not None and mine != theirs and sorted(mine) == sorted(theirs)
+
+    if ev.get("ev") == "Build":
+        n = ev.get("s")
+        return n in refs and order_only(ev.get("content"), refs[n])
+    if ev.get("ev") == "Ref":
+        n = ev.get("s")
+        latest = {}
+        for e in events:
+            if e is ev or (e["ev"] == "Ref" and e["s"] == n):
+                break
+            if e.get("rep") and e["rep"].get("cp"):
+                latest[e["c"]] = e["rep"]
+        bad = [r["content"] for r in latest.values() if r["cp"][0] == n and not r.get("pend") and r["content"] != ev["content"]]
+        return bool(bad) and all(order_only(c, ev["content"]) for c in bad)
+    if ev.get("rep"):
+        n = (ev["rep"].get("cp") or [None])[0]
+        return n in refs and order_only(ev["rep"].get("content"), refs[n])
+    return False
+
+
 def _undo_move_anchor(v, events):
     """KF-UNDO-MOVE-ANCHOR-PURGED: the history undoes/redoes an array move and a
     replica rejects a change with 'MoveAfter ...: child not found'."""
@@ -188,7 +225,7 @@ def _undo_move_anchor(v, events):
     return any("MoveAfter" in (e.get("err") or "") and "child not found" in (e.get("err") or "") for e in events)
 
 
-TRIGGERS = {"KF-ARRAY-GC-ORDER": _array_gc_order, "KF-TEXT-GC-ORDER": _text_gc_order, "KF-TREE-GC-ORDER": _tree_gc_order, "KF-UNDO-MOVE-ANCHOR-PURGED": _undo_move_anchor}
+TRIGGERS = {"KF-ARRAY-GC-ORDER": _array_gc_order, "KF-TEXT-GC-ORDER": _text_gc_order, "KF-TREE-GC-ORDER": _tree_gc_order, "KF-UNDO-RESTORE-PEER-PURGED": _undo_restore_peer_purged, "KF-UNDO-MOVE-ANCHOR-PURGED": _undo_move_anchor}
 
 
 def attribute(prop, v, events, first=None):
